@@ -354,7 +354,11 @@ pub fn send_to_gui(message: &str) {
 pub fn read_from_gui() -> String {
     let stdin = io::stdin();
     let mut buffer = String::new();
-    stdin.lock().read_line(&mut buffer).unwrap();
+    if stdin.lock().read_line(&mut buffer).unwrap() == 0 {
+        // end of input: the GUI is gone, so there is nothing left to serve
+        info!("ENGINE << <end of input>");
+        process::exit(0);
+    }
     buffer = clean_input(&buffer);
     info!("ENGINE << {}", buffer);
     buffer
